@@ -7,4 +7,4 @@ Extraction Language OCaml.
 Separate Extraction
   Coq.Strings.String.string Coq.Strings.Ascii.ascii BinNums.Z BinNat.N.add BinNat.N.mul BinNat.N.div_eucl BinInt.Z.add BinInt.Z.opp
   Sam.Gen.Tables
-  Sam.Model.Slot Sam.Model.Bytes Sam.Model.Resp Sam.Model.Reader Sam.Model.Codec Sam.Model.Frame Sam.Model.Text Sam.Model.Dispatch Sam.Model.RedisFlags Sam.Model.Scan Sam.Model.Compress Sam.Model.Redirect Sam.Model.HostSet Sam.Model.Counter Sam.Model.ConfigStore Sam.Model.Cluster Sam.Model.RedisSem Sam.Model.Migrate Sam.Model.Heal Sam.Model.Stats Sam.Model.Backend Sam.Model.Discovery Sam.Model.Lifecycle Sam.Model.Relay.
+  Sam.Model.Slot Sam.Model.Bytes Sam.Model.Resp Sam.Model.Reader Sam.Model.Codec Sam.Model.Frame Sam.Model.Text Sam.Model.Dispatch Sam.Model.RedisFlags Sam.Model.Scan Sam.Model.Compress Sam.Model.Redirect Sam.Model.HostSet Sam.Model.Counter Sam.Model.ConfigStore Sam.Model.Cluster Sam.Model.RedisSem Sam.Model.Migrate Sam.Model.Gossip Sam.Model.Heal Sam.Model.Stats Sam.Model.Backend Sam.Model.Discovery Sam.Model.Lifecycle Sam.Model.Relay.
